@@ -53,6 +53,19 @@ CLI_POOL = {
     "decor": "def twice(fn):\n    return lambda *a: fn(*a) * 2\n@twice\ndef h(v):\n    return v + 1\nu = h(2)\nprint(u)\n",
     "bytes": "b = b'\\x00\\xffab'\nprint(b, len(b), 0x10, 1e3, 2j)\n",
     "multiline_strings": "doc = \'\'\'line one\nline two\n\nline four\'\'\'\nf = f\"\"\"a\n{len(doc)}\nb\"\"\"\nprint(len(doc), doc.count(chr(10)), f)\n",
+    'sc_falsy_bodies': "log = []\nc = 1\nif c:\n    x = 0\nelse:\n    x = 1\nif not c:\n    y = 5\nelse:\n    y = None\nif c:\n    z = ''\nlog.append((x, y, z))\nif c:\n    log.append('a')\n    w = 0\nelif x:\n    w = 1\nelse:\n    w = 2\nif x:\n    v = 1\nelif c:\n    v = 0\nelse:\n    v = 2\nprint(log, w, v)\n",
+    'sc_nested_if': 'def sign(n):\n    if n > 0:\n        if n > 10:\n            r = 0\n        else:\n            r = False\n    elif n == 0:\n        r = None\n    else:\n        r = []\n    return r\nres = [sign(k) for k in (20, 5, 0, -1)]\nprint(res)\n',
+    'ret_nested_loops': "def find(grid, t):\n    for i, row in enumerate(grid):\n        j = 0\n        while j < len(row):\n            if row[j] == t:\n                return (i, j)\n            if row[j] < 0:\n                break\n            j += 1\n        else:\n            continue\n        return 'neg'\n    return None\na = find([[1, 2], [3, 4]], 4)\nb = find([[1, -2], [3, 4]], 4)\nc = find([[1]], 9)\nprint(a, b, c)\n",
+    'while_else_continue': "n = 0\nout = []\nwhile n < 6:\n    n += 1\n    if n % 2:\n        continue\n    out.append(n)\nelse:\n    out.append('done')\nm = 0\nwhile True:\n    m += 1\n    if m > 2:\n        break\nelse:\n    out.append('never')\nprint(out, n, m)\n",
+    'prec_zoo': 'a, b, c = 2, 3, 4\nr = [-a ** 2, (-a) ** 2, a ** -1, a ** b ** 2, (a ** b) ** 2, -a * b, -(a * b), not a == b, (not a) == b,\n     a - (b - c), a - b - c, a / (b / c), a // b % c, a % (c // b), a << b >> 1, a & b | c ^ a, ~a + 1, -(-a), +-a,\n     a < b < c, (a < b) < c, a if b else c if a else b, (a if b else c) if a else b, (lambda: a)() + 1,\n     a @ 1 if False else 0, [a, b][-1], (a, b)[::-1], a and b or c, a or b and c, not (a and b)]\nprint(r)\n',
+    'prec_lambda_walrus': "f = lambda x: x if x else -x\ng = lambda x, y=(1, 2): (x, *y)\nh = (lambda: (yield_ := 1))()\nk = [y for x in range(5) if (y := x * 2) > 2]\nm = {(lambda v: v)(1): (1, 2)[1:], **{'k': -1}}\nn = f(0), f(-3), g(0), h, k\nprint(n, m, y)\n",
+    'subscripts_slices': "d = {(1, 2): 'a'}\nl = list(range(10))\nt = d[1, 2], l[1:8:2], l[::-1][0], l[-3:], l[:2], l[slice(1, 3)], l[1:2][0:1], 'abc'[1], (1, 2, 3)[-1], l[l[1]]\nl[2:4] = [0]\nl[0], l[1] = l[1], l[0]\nprint(t, l)\n",
+    'call_shapes': "def f(*a, **k):\n    return (a, sorted(k.items()))\nx = [1, 2]\ny = {'p': 1}\nr = [f(*x), f(*x, 3), f(**y), f(*x, **y, q=2), f(i for i in x), f((i for i in x), 1)[0][1], f(x if x else y), f(a := 5), f(lambda: 0)[0][0](), a]\nr[4] = list(r[4][0][0])\nprint(r)\n",
+    'fstring_zoo': 'w = 7\nname = \'n\'\nd = {\'k\': 1.5}\nr = [f\'{w:>{w}}\', f\'{w!r}\', f\'{d["k"]:.2f}\', f\'{name}{w}\', f\'{{}}{w}\', f\'{w:{"0"}{3}}\', f\'{w + 1 = }\', f"{\'a\' if w else \'b\'}", f\'{(lambda: 1)()}\', f\'{w,}\', f\'{ {1: 2}[1] }\']\nprint(r)\n',
+    'augassign_objects': "class Acc:\n    def __init__(self):\n        self.log = []\n        self.n = 0\n    def __iadd__(self, o):\n        self.log.append(o)\n        return self\nclass Box:\n    pass\nb = Box()\nb.acc = Acc()\nb.acc += 1\nb.acc += 2\nb.n = 1\nb.n += 2\nd = {'a': Acc(), 'n': 1}\nd['a'] += 3\nd['n'] *= 5\nt = (1, 2)\nt += (3,)\ns = 'x'\ns *= 2\nprint(b.acc.log, b.n, d['a'].log, d['n'], t, s)\n",
+    'nonlocal_comprehension': 'def outer():\n    total = 0\n    items = [1, 2, 3]\n    def add(k):\n        nonlocal total\n        total += k\n        return total\n    sums = [add(i) for i in items]\n    sq = {i: total + i for i in items}\n    return sums, sq, total\nr = outer()\nprint(r)\n',
+    'class_features': "class Meta(type):\n    def __new__(m, n, b, ns, **kw):\n        c = super().__new__(m, n, b, ns)\n        c.kw = kw\n        return c\nclass A(metaclass=Meta, flag=1):\n    x = 1\n    y = x + 1\n    def m(self):\n        return self.y\n    @staticmethod\n    def s():\n        return 's'\n    @classmethod\n    def c(cls):\n        return cls.x\n    @property\n    def p(self):\n        return self.x * 10\nclass B(A):\n    def m(self):\n        return super().m() + 1\no = B()\nr = (o.m(), B.s(), B.c(), o.p, A.kw, B.__mro__[1].__name__)\nprint(r)\n",
+    'globals_in_functions': 'counter = 0\nnames = []\ndef bump(k):\n    global counter\n    counter += k\n    names.append(counter)\n    return counter\ndef shadow():\n    counter = 100\n    return counter\nr = [bump(1), bump(2), shadow(), counter]\nprint(r, names)\n',
     "ellipsis_tail": "x = 1\nif x:\n    pass\nelse:\n    ...\n",
     "mentions_paths": "names = ['out.txt', 'in.py', '-o', '-Cunparser=oneliner', 'r\u00e9sultat.txt']\nprint(names, __name__ == '__main__')\n",
     "print_alias": "p = print\nshow = lambda *a: p('>', *a)\nshow('x', 1)\np(len('abc'))\n",
@@ -278,7 +291,7 @@ def child_exp(arg) -> dict:
         if a != b:
             if a[0] != "ok" or b[0] != "ok":
                 res["eval_class"] = "raises"
-                res["eval_names"] = [str(a[:2]), str(b[:2])]
+                res["eval_names"] = ["script=" + (a[0] if a[0] == "ok" else str(a[1])), "translation=" + (b[0] if b[0] == "ok" else str(b[1]))]
             elif a[1] != b[1]:
                 res["eval_class"] = "stdout-differs"
                 res["eval_names"] = []
